@@ -345,9 +345,14 @@ messageTypeSwitching:
 		err := m.SaveSession()
 		check(err)
 
+		// only message which server rejected must be sent again: other requests are accepted by server
+		// already, and will be answered. entry of rejected message must be forgotten, cause its request
+		// will be registered again with a new id
 		m.mutex.Lock()
-		for _, k := range m.responseChannels.Keys() {
-			v, _ := m.responseChannels.Get(k)
+		badMsgID := int(message.BadMsgID)
+		if v, ok := m.responseChannels.Get(badMsgID); ok {
+			m.responseChannels.Delete(badMsgID)
+			m.expectedTypes.Delete(badMsgID)
 			v <- &errorSessionConfigsChanged{}
 		}
 		m.mutex.Unlock()
